@@ -339,6 +339,8 @@ class ObjExec(AbsExec):
             env2 = dict(env)
             env2["<l>"], env2["<r>"] = a, b
             return super().ev(ast.copy_location(ast.BinOp(left=ast.Name(id="<l>", ctx=ast.Load()), op=e.op, right=ast.Name(id="<r>", ctx=ast.Load())), e), env2)
+        if isinstance(e, ast.SetComp):
+            return set(super().ev(e, env))  # a set the code may go on to modify (pop, add)
         if isinstance(e, ast.Dict) and any(k is None for k in e.keys):
             d: dict[Any, Any] = {}
             for k, v in zip(e.keys, e.values):
@@ -1031,6 +1033,12 @@ class ObjExec(AbsExec):
                 except TypeError:
                     raise Internal("TypeError", f"`{unparse(e)[:60]}`", e) from None
             raise Internal("AttributeError", f"`{unparse(e)[:60]}`", e)
+        if isinstance(recv, set) and name == "pop" and not args:
+            if not recv:
+                raise Internal("KeyError", f"`{unparse(e)[:60]}`: pop from an empty set", e)
+            if len(recv) > 1:
+                raise self.unknown(e, "pop from a set of several elements (which one is not determined)")
+            return recv.pop()
         if isinstance(recv, (int, float)) and not isinstance(recv, bool) and name in ("is_integer",):
             return float(recv).is_integer()
         return super().method(recv, name, args, kw, e)
